@@ -505,7 +505,32 @@ func c13MethodsOfRequest(v ssa.Value) (methods []string, ok bool) {
 		case "net/http.NewRequest":
 			m = call.Call.Args[0]
 		default:
-			return nil, false
+			// a request factory of the module: the methods of the requests it returns
+			F := StaticCallee(call)
+			if F == nil || !inModule(F) || len(F.Blocks) == 0 || F == call.Parent() {
+				return nil, false
+			}
+			some := false
+			for _, a := range RetAtoms(F, 0) {
+				if isNilConst(a.Val) {
+					continue
+				}
+				ms, ok := c13MethodsOfRequest(a.Val)
+				if !ok {
+					return nil, false
+				}
+				some = true
+				for _, x := range ms {
+					if !seen[x] {
+						seen[x] = true
+						methods = append(methods, x)
+					}
+				}
+			}
+			if !some {
+				return nil, false
+			}
+			continue
 		}
 		s, isConst := constString(m)
 		if !isConst {
